@@ -644,6 +644,11 @@ func init() {
 								a = &agg{sets: map[string]bool{}, pos: bw.Pos}
 								res[k] = a
 							}
+							// the component's set with '%' added (the single-percent option's arm; OPT-consumers and OPT-effect
+							// govern where that may happen) names the same component set
+							for _, suf := range []string{".Set('%')", ".Set(0x25)", ".Set(37)"} {
+								bw.Set = strings.TrimSuffix(bw.Set, suf)
+							}
 							a.sets[bw.Set] = true
 							exp := w.plain
 							if variant == "special" {
